@@ -765,7 +765,7 @@ func GenCase(prop string, seed uint64, thorough bool) *Case {
 	case "crash":
 		g.crashPlan(c)
 	case "fault":
-		if prop == "C08" && r.p(0.15) {
+		if prop == "C08" && r.p(0.15) || prop == "C09" && len(c.Clients) == 1 && r.p(0.1) {
 			// bit rot at rest instead of operation failures
 			ops := c.Clients[0]
 			at := len(ops) / 2
@@ -774,7 +774,19 @@ func GenCase(prop string, seed uint64, thorough bool) *Case {
 			}
 			rot := Op{K: "rot", Slot: r.rng(1, 3), Ms: int(r.u64() % 1000000)}
 			ops = append(ops[:at:at], append([]Op{rot}, ops[at:]...)...)
-			for i := at + 1; i < len(ops); i++ {
+			if prop == "C09" {
+				// keep writing and compacting: a compaction that meets the
+				// damage puts the DB into its persistent error state, after
+				// which every call must fail at once instead of waiting
+				for i := r.rng(10, 40); i > 0; i-- {
+					ops = append(ops, g.writeOp(0.2))
+					if r.p(0.1) {
+						ops = append(ops, Op{K: "compact"})
+					}
+				}
+				ops = append(ops, Op{K: "compact"}, g.txOp(), g.writeOp(0.5))
+			}
+			for i := at + 1; i < len(ops) && prop == "C08"; i++ {
 				if ops[i].K == "tx" || ops[i].K == "compact" {
 					ops[i] = Op{K: "get", Key: g.anyKey()}
 				}
